@@ -2,6 +2,8 @@ import EdpVerif.Lemmas.CmpSwap
 import EdpVerif.Impl.Encode
 import EdpVerif.Impl.Decode
 import EdpVerif.Lemmas.Codec
+import EdpVerif.Impl.EqHash
+import EdpVerif.Lemmas.RoundTrip
 /-
 C10 — identifiers received from a peer are re-emitted byte-for-byte.
 -/
@@ -65,5 +67,43 @@ theorem C10_decode_keeps_local_bytes (x : Ext) (hash node rest : Bytes) (id seri
   simp only [List.append_assoc, List.cons_append] at e
   apply e
   simp [be32, beN_length, hh]; omega
+
+/-! ### equality and hash (`PartialEq` / `Hash`, Impl/EqHash.lean — tied to the real `==` and `Hash::hash` by C11's run) -/
+
+/-- `==` never looks at the preserved bytes: for the three identifier kinds, against any term, on either side -/
+theorem C10_eq_ignores_local (t u : Term) (l l' : Option Bytes) :
+    (∀ p : PidF, Term.eqv (.pid { p with loc := l }) u = Term.eqv (.pid { p with loc := l' }) u ∧
+                 Term.eqv t (.pid { p with loc := l }) = Term.eqv t (.pid { p with loc := l' })) ∧
+    (∀ n i c, Term.eqv (.port n i c l) u = Term.eqv (.port n i c l') u ∧ Term.eqv t (.port n i c l) = Term.eqv t (.port n i c l')) ∧
+    (∀ n c ids, Term.eqv (.ref n c ids l) u = Term.eqv (.ref n c ids l') u ∧ Term.eqv t (.ref n c ids l) = Term.eqv t (.ref n c ids l')) := by
+  refine ⟨fun p => ⟨?_, ?_⟩, fun n i c => ⟨?_, ?_⟩, fun n c ids => ⟨?_, ?_⟩⟩
+  · cases u <;> simp [Term.eqv, pidEq]
+  · cases t <;> simp [Term.eqv, pidEq]
+  · cases u <;> simp [Term.eqv]
+  · cases t <;> simp [Term.eqv]
+  · cases u <;> simp [Term.eqv]
+  · cases t <;> simp [Term.eqv]
+
+example : Term.eqv (.pid { node := [97], id := 1, serial := 2, creation := 3, loc := some [1, 2, 3] })
+    (.pid { node := [97], id := 1, serial := 2, creation := 3, loc := none }) = true := by
+  simp [Term.eqv, pidEq]
+
+/-- the bytes fed to the hasher never contain the preserved bytes: the same identifier hashes the same in either form -/
+theorem C10_hash_ignores_local (l l' : Option Bytes) :
+    (∀ p : PidF, Term.hashBytes (.pid { p with loc := l }) = Term.hashBytes (.pid { p with loc := l' })) ∧
+    (∀ n i c, Term.hashBytes (.port n i c l) = Term.hashBytes (.port n i c l')) ∧
+    (∀ n c ids, Term.hashBytes (.ref n c ids l) = Term.hashBytes (.ref n c ids l')) := by
+  refine ⟨fun p => ?_, fun n i c => ?_, fun n c ids => ?_⟩ <;> simp [Term.hashBytes, hPid]
+
+example : Term.hashBytes (.port [97] 1 2 (some [9])) = Term.hashBytes (.port [97] 1 2 none) := by simp [Term.hashBytes]
+
+/-- every identifier kind, every well-formed inner form, any hash, at any depth the limit allows, with anything behind it:
+the node-local form is written back as `LOCAL_EXT ++ hash ++ inner` and read again as the same identifier carrying the same
+bytes (Lemmas/RoundTrip.lean `dec_enc_local`) -/
+theorem C10_local_roundtrip (x : Ext) (t : Term) (hash plain r : Bytes) (fuel d : Nat)
+    (hid : isIdent t = true) (hh : hash.length = 8) (hw : wfT (clearLoc t) = true)
+    (hp : enc [] (clearLoc t) = .ok plain) (hl : locOf t = some (hash ++ plain)) (hd : d + 2 ≤ MAX_NESTING_DEPTH) :
+    enc [] t = .ok (121 :: (hash ++ plain)) ∧ dec x {} (fuel + 3) d (121 :: (hash ++ plain) ++ r) = .ok (t, r) :=
+  dec_enc_local x {} [] (by simp [cfgFor]) (by simp) rfl t hash plain r fuel d hid hh hw hp hl hd
 
 end Edp.Props.C10
